@@ -1,5 +1,5 @@
 (** C02 - No task is lost or stuck: runnable work always gets run, jobs terminate. *)
-From HQ Require Import Base.Prelude Cluster.Types Cluster.Core Cluster.Reactor Cluster.Worker Cluster.Server Cluster.Sys Cluster.Monitors Cluster.ProofsJob Cluster.ProofsCore Cluster.ProofsMore Cluster.BijBase Cluster.BijFinal Cluster.BijWitness Cluster.RejHyp Cluster.InvWFinal Cluster.InvAll Cluster.NoPanicU0 Cluster.NoPanicU1 Cluster.NoPanicU20 Cluster.NoFresh.
+From HQ Require Import Base.Prelude Cluster.Types Cluster.Core Cluster.Reactor Cluster.Worker Cluster.Server Cluster.Sys Cluster.Monitors Cluster.ProofsJob Cluster.ProofsCore Cluster.ProofsMore Cluster.BijBase Cluster.BijFinal Cluster.BijWitness Cluster.RejHyp Cluster.InvWFinal Cluster.InvAll Cluster.NoPanicU0 Cluster.NoPanicU1 Cluster.NoPanicU20 Cluster.NoFresh Cluster.RestU1 Cluster.RestU12 Cluster.RestU13.
 From Coq Require Import ZArith.
 Local Open Scope N_scope.
 
@@ -107,6 +107,41 @@ Theorem C02_run_fresh_derived : forall ops reserve maxfill s outs,
   run_fresh (init_sys reserve maxfill) ops = true.
 Proof. exact fresh_of_ops. Qed.
 
+(** NO TASK IN LIMBO AT REST (the safety part of the progress half).  In every reachable state in
+    which the system is at rest - the scheduler has nothing to do ([c_flag] off) and every worker
+    process has empty channels, no running task and no future ([at_rest]) - every task the
+    scheduler knows is Waiting, with one exception that is real in the model: a task Prefilled on a
+    worker whose entry is still in that worker's backlog (only the solver moves it; with empty
+    backlogs: all Waiting).  No task is Assigned, Retracting or Running with nothing behind it.
+    Hypotheses on the inputs only ([op_wf], [ops_ok]). *)
+Theorem C02_at_rest_waiting_or_backlog : forall ops reserve maxfill s outs,
+  Forall op_wf ops -> ops_ok (init_sys reserve maxfill) ops = true -> run (init_sys reserve maxfill) ops = Ok (s, outs) ->
+  at_rest s -> forall x t, find_task (c_tasks (s_core s)) x = Some t ->
+  match t_state t with
+  | Waiting _ => True
+  | Prefilled w => exists p, find_proc (s_procs s) w = Some p /\ bl_count x (p_backlog p) = 1%nat
+  | _ => False
+  end.
+Proof. exact at_rest_waiting_or_backlog. Qed.
+Theorem C02_at_rest_all_waiting : forall ops reserve maxfill s outs,
+  Forall op_wf ops -> ops_ok (init_sys reserve maxfill) ops = true -> run (init_sys reserve maxfill) ops = Ok (s, outs) ->
+  at_rest s -> (forall p, In p (s_procs s) -> p_backlog p = []) ->
+  forall t, In t (c_tasks (s_core s)) -> exists n, t_state t = Waiting n.
+Proof. exact at_rest_all_waiting. Qed.
+(** ... in the form of the driver's monitor `task-in-limbo-at-rest`, and two corollaries. *)
+Theorem C02_at_rest_monitor : forall ops reserve maxfill s outs,
+  Forall op_wf ops -> ops_ok (init_sys reserve maxfill) ops = true -> run (init_sys reserve maxfill) ops = Ok (s, outs) ->
+  at_rest_mon s = true -> forallb (fun p => is_nilb (p_backlog p)) (s_procs s) = true -> all_waiting s = true.
+Proof. exact at_rest_monitor. Qed.
+Theorem C02_at_rest_no_redirects : forall ops reserve maxfill s outs,
+  Forall op_wf ops -> ops_ok (init_sys reserve maxfill) ops = true -> run (init_sys reserve maxfill) ops = Ok (s, outs) ->
+  at_rest s -> c_redirects (s_core s) = [].
+Proof. exact at_rest_no_redirects. Qed.
+Theorem C02_at_rest_no_assigned : forall ops reserve maxfill s outs,
+  Forall op_wf ops -> ops_ok (init_sys reserve maxfill) ops = true -> run (init_sys reserve maxfill) ops = Ok (s, outs) ->
+  at_rest s -> forall w wk a p f, find_worker (c_workers (s_core s)) w = Some wk -> w_assign wk = Sn a p f -> a = [].
+Proof. exact at_rest_no_assigned. Qed.
+
 Print Assumptions C02_queue_invariant.
 Print Assumptions C02_worker_sets_invariant.
 Print Assumptions C02_no_phantom_no_orphan.
@@ -116,3 +151,8 @@ Print Assumptions C02_auto_ids_no_phantoms.
 Print Assumptions C02_ready_queue_sorted.
 Print Assumptions C02_worker_sets_invariant_static.
 Print Assumptions C02_run_fresh_derived.
+Print Assumptions C02_at_rest_waiting_or_backlog.
+Print Assumptions C02_at_rest_all_waiting.
+Print Assumptions C02_at_rest_monitor.
+Print Assumptions C02_at_rest_no_redirects.
+Print Assumptions C02_at_rest_no_assigned.
